@@ -252,6 +252,17 @@ def abstract_constraint(cs, names):
             'name': cs.name, 'cond': index_cond(attrs, names)}
 
 
+def _abstract_constraint_dict(c, names):
+    """ChangeMeta('constraints') entry (dict with type/name/attrs) -> abstract record."""
+    from django.db import models
+    attrs = {k: v for k, v in c.items() if k not in ('type', 'name')}
+    if issubclass(c['type'], models.CheckConstraint):
+        return {'kind': 'check', 'fields': [], 'name': c['name'],
+                'cond': index_cond({'condition': attrs.get('check')}, names)}
+    return {'kind': 'unique', 'fields': [names.rfields.get(x, x) for x in (attrs.get('fields') or [])],
+            'name': c['name'], 'cond': index_cond(attrs, names)}
+
+
 def index_cond(attrs, names):
     """Abstract `cond` of a real index signature's attrs (see concrete_index)."""
     q = (attrs or {}).get('condition')
@@ -317,6 +328,8 @@ def project_mutation(m, names):
         rec.update(k='Meta', m=rm(m.model_name), prop=m.prop_name)
         if m.prop_name == 'unique_together':
             rec['val'] = [[rf(x) for x in t] for t in m.new_value]
+        elif m.prop_name == 'constraints':
+            rec['ival'] = [_abstract_constraint_dict(c, names) for c in (m.new_value or [])]
         elif m.prop_name == 'indexes':
             rec['ival'] = [{'fields': [rf(x) for x in ix.get('fields', [])],
                             'name': ix.get('name', NONE)}
